@@ -129,6 +129,9 @@ func WithDisabledLocalFiltering(val bool) Option {
 // The protocols are ordered alphabetically for cache key (url) consistency
 func WithProtocolFilter(protocolFilter []string) Option {
 	return func(c *Client) error {
+		// Normalize like the server parses the URL parameter (IPIP-484 filters are
+		// case-insensitive), so that local filtering agrees with the server.
+		protocolFilter = filters.ParseFilter(strings.Join(protocolFilter, ","))
 		slices.Sort(protocolFilter)
 		c.protocolFilter = protocolFilter
 		return nil
@@ -140,6 +143,8 @@ func WithProtocolFilter(protocolFilter []string) Option {
 // The addresses are ordered alphabetically for cache key (url) consistency
 func WithAddrFilter(addrFilter []string) Option {
 	return func(c *Client) error {
+		// Normalize like the server parses the URL parameter (see WithProtocolFilter).
+		addrFilter = filters.ParseFilter(strings.Join(addrFilter, ","))
 		slices.Sort(addrFilter)
 		c.addrFilter = addrFilter
 		return nil
